@@ -84,6 +84,10 @@ def two_runs(n, cut, fast, tf, seed):
 
 def replay(pl):
     ob = pl['obligation']
+    if ob.startswith('chunk-clock'):
+        from native import C06
+        d = C06.scenario_fill_times()
+        return {'confirmed': bool(d), 'detail': d or 'the clock at every fill is the end of the minute that reached the price'}
     m = pl['m']
     fast = ob.startswith('fast') or ob.startswith('chunk')
     i = m.get('i')
